@@ -112,6 +112,9 @@ def main():
                     diffs += 1
                     if diffs <= 5: R.extra.setdefault('correspondence_diffs', []).append({'case': line, 'impl': io[:200], 'model': mo[:200]})
             classes.add((op, fam, x, spec.strict_utf8(spec.dec(v)), b'%' in v, any(c > 127 for c in v)))
+        elif len(f) < 5:
+            pr.append('obtaining the percent-decoded views of the components panicked or returned nothing: %s' % io[:100])
+            classes.add((op, x, 'panic'))
         else:
             P = spec.parse(v)
             def views(tok): return tok.split('/') if tok != '~' else None
